@@ -2649,7 +2649,9 @@ class op(object):
         if not variables: 
             raise TypeError('lp must have at least one variable')
         x = variables[0]
-        c = lp1.objective._linear._coeff[x]
+        # a zero cost vector of length 1 leaves no term in the objective
+        c = lp1.objective._linear._coeff.get(x)
+        if c is None: c = matrix(0.0, (1,len(x)))
         if _isspmatrix(c): c = matrix(c, tc='d')
 
         inequalities = lp1._inequalities
